@@ -307,6 +307,11 @@ pub enum Act {
     Emsgsize(Option<usize>),
     /// the next send attempt finds the transport not ready
     TransportPendingOnce,
+    /// the parked write / flush / shutdown is polled again from another task (a different waker):
+    /// the latest waker is the one that must be woken
+    RepollWriterOtherTask,
+    /// same for the parked read
+    RepollReaderOtherTask,
 }
 
 #[derive(Clone, Debug, PartialEq)]
@@ -920,6 +925,8 @@ impl World {
             Act::Deliver(_) | Act::Deliver2(..) | Act::Spurious | Act::Tick | Act::Wait(_) => self.done.is_none(),
             Act::Emsgsize(x) => self.tr.lock().emsgsize_above != *x,
             Act::TransportPendingOnce => !self.tr.lock().pending_once && self.done.is_none(),
+            Act::RepollWriterOtherTask => self.writer.is_some() && self.w_parked != Parked::No,
+            Act::RepollReaderOtherTask => self.reader.is_some() && self.r_parked != Parked::No,
         }
     }
 
@@ -980,6 +987,22 @@ impl World {
             }
             Act::Emsgsize(x) => self.tr.lock().emsgsize_above = *x,
             Act::TransportPendingOnce => self.tr.lock().pending_once = true,
+            Act::RepollWriterOtherTask => {
+                // a wake-up that already happened is not lost by the hand-over: the new task polls anyway
+                self.w = Arc::new(Flag::default());
+                match self.w_parked {
+                    Parked::Write(n) => self.app_write(n, &mut rec),
+                    Parked::Flush => self.app_flush(false, &mut rec),
+                    Parked::Shutdown => self.app_flush(true, &mut rec),
+                    _ => {}
+                }
+            }
+            Act::RepollReaderOtherTask => {
+                self.r = Arc::new(Flag::default());
+                if let Parked::Read(n) = self.r_parked {
+                    self.app_read(n, &mut rec);
+                }
+            }
         }
         self.quiesce(&mut rec);
         // a transport that was pending becomes ready again "later": wake whoever waited for it
@@ -1056,6 +1079,9 @@ impl World {
                 | (self.done.is_some() as u64) << 9
                 | (matches!(self.done, Some(Err(_))) as u64) << 10,
         );
+        // whom the registered wakers would wake (0 none, 1 the task that polled last, 2 someone else)
+        let (ww, rw) = self.waker_targets();
+        out.push(ww as u64 | (rw as u64) << 2);
         out.push(self.peer_sent.len() as u64);
         for d in &self.peer_sent {
             out.push(*d as u64);
@@ -1089,6 +1115,25 @@ impl World {
                 w.verif_shared_fp(out);
             }
         }
+    }
+
+    /// (writer slot, reader slot): 0 = no waker registered, 1 = the registered waker wakes the task
+    /// that polled the half last, 2 = it wakes some other (earlier) task.
+    pub fn waker_targets(&self) -> (u8, u8) {
+        let code = |x: Option<bool>| match x {
+            None => 0u8,
+            Some(true) => 1,
+            Some(false) => 2,
+        };
+        let ww = self.writer.as_ref().map(|h| {
+            let cur: Waker = self.w.clone().into();
+            code(h.verif_writer_waker_wakes(&cur))
+        });
+        let rw = self.reader.as_ref().map(|h| {
+            let cur: Waker = self.r.clone().into();
+            code(h.verif_reader_waker_wakes(&cur))
+        });
+        (ww.unwrap_or(0), rw.unwrap_or(0))
     }
 
     pub fn fingerprint(&self) -> Vec<u64> {
